@@ -207,6 +207,9 @@ type spec struct {
 	CredStr    string `json:"credential_placement"`
 	ParamPlace int    `json:"-"` // the grant's own parameters
 	ParamStr   string `json:"parameter_placement"`
+
+	// Stray: a grant_type parameter in the body of an introspection / revocation / device-authorization request
+	Stray string `json:"stray_grant_type,omitempty"`
 }
 
 func (s *spec) has(g oidc.GrantType) bool { return slices.Contains(s.Grants, g) }
@@ -271,8 +274,16 @@ func (s *spec) grantDisabled(g oidc.GrantType) bool {
 
 const reservedSecret = "p@ss:w/ord+%&=?# ü"
 
-func buildSpec(r *rand.Rand, idx int) *spec {
-	c := idx % coreCells
+func buildSpec(r *rand.Rand, idx int) *spec { return buildSpecCell(r, idx, idx%coreCells) }
+
+// cellOf is the index of a core cell (the inverse of the decomposition in buildSpecCell).
+func cellOf(o, pres, auth, grantKind int) int {
+	return o + numOps*(pres+numPres*(auth+numAuth*grantKind))
+}
+
+// buildSpecCell draws the case idx for a given core cell (the overlap part chooses its cells itself).
+func buildSpecCell(r *rand.Rand, idx, cell int) *spec {
+	c := cell
 	s := &spec{Idx: idx}
 	s.Op = c % numOps
 	c /= numOps
@@ -406,6 +417,16 @@ func buildSpec(r *rand.Rand, idx int) *spec {
 		s.PermSub = r.IntN(2) == 0
 	case pAssertValid, pAssertOtherKey, pAssertValidWithID, pMixedAssert, pOwnAssertOtherID, pUnknownAssert:
 		s.PermSub = r.IntN(4) == 0
+	}
+	// (drawn last, so that everything above is the same function of (seed, index) as before this dimension existed)
+	// a stray grant_type parameter on an endpoint that is not the token endpoint: legal, meaningless to the endpoint, and
+	// exactly what makes a router consult the registration between authenticating the client and serving the request
+	if !isTokenOp(s.Op) && r.IntN(4) == 0 {
+		if len(s.Grants) > 0 && r.IntN(2) == 0 {
+			s.Stray = string(s.Grants[r.IntN(len(s.Grants))])
+		} else {
+			s.Stray = string(allGrants[r.IntN(len(allGrants))])
+		}
 	}
 	return s
 }
@@ -694,6 +715,14 @@ func oracleOneGrant(s *spec, p proof, bk int) verdict {
 				v.reasons = slices.Delete(v.reasons, i, i+1)
 				grey(opNames[s.Op] + ":" + k + "(storage-decides)")
 			}
+		}
+	}
+	// A stray grant_type=client_credentials makes the same storage-side authenticator (ClientCredentials(id, secret)) the
+	// authenticator of the request on the Server router: a stored secret it accepts is storage policy there as well.
+	if s.Stray == string(oidc.GrantTypeClientCredentials) && !isTokenOp(s.Op) {
+		if i := slices.Index(v.reasons, "wrong-kind-secret"); i >= 0 {
+			v.reasons = slices.Delete(v.reasons, i, i+1)
+			grey(opNames[s.Op] + ":wrong-kind-secret(stray grant_type=client_credentials: storage-decides)")
 		}
 	}
 	return v
